@@ -142,6 +142,36 @@ def run(facts, rep, tier):
     lblocks = reg.loop_blocks
     exits = [(a, b) for a, b in cfg.loop_exits(lblocks) if body.blocks[b]["term"]["k"] != "unreachable"
              and not body.blocks[b]["cleanup"]]
+    # an exit decided on a bool temporary that only ever holds constants (`matches!(..)`, `a && b`): the decisions that
+    # select the constant are the real exit controllers
+    from ..mirq import controlling_decisions as _cd
+    expanded = []
+    for a, b in exits:
+        t = body.blocks[a]["term"]
+        done = False
+        if t["k"] == "switch":
+            r0 = du.root(t["discr"])
+            if r0[0] == "multi":
+                ds = du.whole_defs(r0[1])
+                consts = []
+                for d in ds:
+                    if d[0] == "stmt" and d[3]["rv"]["k"] == "use" and "const" in d[3]["rv"]["x"] and "int" in d[3]["rv"]["x"]["const"]:
+                        consts.append((d[1], int(d[3]["rv"]["x"]["const"]["int"])))
+                if ds and len(consts) == len(ds):
+                    for bd, v in consts:
+                        tgt = t["otherwise"]
+                        for val, bb2 in t["targets"]:
+                            if int(val) == v:
+                                tgt = bb2
+                        if tgt != b:
+                            continue
+                        for sbb, vals, live in _cd(body, cfg, bd):
+                            if sbb in lblocks and (sbb, b) not in expanded:
+                                expanded.append((sbb, b))
+                    done = True
+        if not done:
+            expanded.append((a, b))
+    exits = expanded
     n_exit = 0
     for a, b in exits:
         t = body.blocks[a]["term"]
@@ -160,12 +190,13 @@ def run(facts, rep, tier):
             ctrl = r2
         else:
             ctrl = r
-        if ctrl[0] == "rv" and ctrl[1]["rv"]["k"] == "bin" and ctrl[1]["rv"]["op"] in ("Eq", "Ne"):
+        if ctrl[0] == "rv" and ctrl[1]["rv"]["k"] == "bin" and ctrl[1]["rv"]["op"] in ("Eq", "Ne", "Gt", "Le", "Lt", "Ge"):
             # `if reader.read_until(..)? == 0 { break }` : end of input reported as a zero byte count
             from ..mirq import expr as _expr, show as _show
             e = _expr(du, t["discr"])
-            zero = [x for x in (e[2], e[3]) if x == ("const", 0)]
-            other = [x for x in (e[2], e[3]) if x != ("const", 0)]
+            # n == 0 / n != 0 / n > 0 / n <= 0 / 0 < n / n < 1 / n >= 1 : all "did the reader return any byte"
+            zero = [x for x in (e[2], e[3]) if x in (("const", 0), ("const", 1))]
+            other = [x for x in (e[2], e[3]) if x not in (("const", 0), ("const", 1))]
             src = None
             if zero and other:
                 o = other[0]
@@ -281,7 +312,7 @@ def run(facts, rep, tier):
     outside_defined = set()
     for l in range(1, len(proc.locals)):
         ds = pdu.defs.get(l, [])
-        if l <= proc.arg_count or any(d[1] not in reg.blocks for d in ds):
+        if l <= proc.arg_count or any(d[1] not in reg.blocks and not reg.cfg.dominates(reg.header, d[1]) for d in ds):
             outside_defined.add(l)
     if reg.helper is not None:
         outside_defined = set(range(1, proc.arg_count + 1))
